@@ -80,6 +80,8 @@ class Sym:
         self.extra_peel = set(extra_peel)
         self.no_peel = set(no_peel)
         self.max_paths = max_paths
+        self._prov = None
+        self._outside = {}
 
     # -- expression evaluation in an environment ------------------------------------------
     def const(self, k):
@@ -90,6 +92,23 @@ class Sym:
             return env[l]
         if 1 <= l <= self.fn.argc:
             return ("param", l)
+        # an anonymous temporary with a single definition that the path did not execute was defined
+        # before the region the path starts in: its value is its provenance
+        if l not in self.stateful_locals and not self.fn.local_name(l):
+            v = self._outside.get(l)
+            if v is None:
+                v = ("local", l)
+                defs = self.fn.defs().get(l, [])
+                if len(defs) == 1:
+                    try:
+                        if self._prov is None:
+                            from .prov import Prov
+                            self._prov = Prov(self.fn, copies=self.copies)
+                        v = self._prov.local(l)
+                    except Exception:
+                        v = ("local", l)
+                self._outside[l] = v
+            return v
         return ("local", l)
 
     def place(self, env, place):
@@ -544,12 +563,14 @@ class ForLoop:
         return sym.paths(start=self.body, stops=stops, env=env, assume=assume)
 
     def head(self):
-        # the loop header is the target of the back edge that dominates next_block
+        # the loop header is the target of the back edge that dominates next_block; for nested loops
+        # the innermost such loop
+        best = None
         for a, h in self.fn.back_edges():
             if self.fn.dominates(h, self.next_block) and self.next_block in self.fn.loop_blocks(h):
-                best = h
-                return best
-        return self.next_block
+                if best is None or len(self.fn.loop_blocks(h)) < len(self.fn.loop_blocks(best)):
+                    best = h
+        return best if best is not None else self.next_block
 
 
 def for_loops(fn, prov=None):
